@@ -79,7 +79,7 @@ Proof.
     destruct need as [|need].
     + destruct (r_content r); [cbn [lift2]; rewrite Sc; reflexivity|reflexivity].
     + destruct (r_content r) as [|x xs]; [reflexivity|].
-      destruct (Nat.leb _ _); [|reflexivity]. rewrite IH, Sc. reflexivity.
+      destruct (Nat.leb _ _); rewrite IH, Sc; reflexivity.
   - rewrite R. reflexivity.
 Qed.
 
